@@ -27,7 +27,9 @@ from _sql import make_event, open_storage  # noqa: E402
 
 # not NIP-01 events / not valid NIP-26 delegations: the validators may refuse them (then they must leave no trace); if they are
 # acknowledged they must be retrievable like any other
-MAY_BE_REFUSED = {"integer-tag-value", "integer-tag-name", "bare-delegation-tag"}
+MAY_BE_REFUSED = {"integer-tag-value", "integer-tag-name", "bare-delegation-tag",
+                  # outside the integer range the relay accepts (fix 3e4123b)
+                  "created-at-2^32", "created-at-minus-1", "created-at-2^63", "kind-2^32", "kind-minus-1", "kind-70000"}
 
 
 def cases():
@@ -46,6 +48,12 @@ def cases():
     out.append(("multi-byte-tag", None, make_event(key=1, kind=1, created_at=1004, tags=[["é", "中" * 100]], content="k")))
     out.append(("created-at-0", None, make_event(key=2, kind=1, created_at=0, tags=[], content="l")))
     out.append(("created-at-2^32-1", None, make_event(key=2, kind=1, created_at=2 ** 32 - 1, tags=[], content="m")))
+    out.append(("created-at-2^32", None, make_event(key=2, kind=1, created_at=2 ** 32, tags=[], content="m2")))
+    out.append(("created-at-minus-1", None, make_event(key=2, kind=1, created_at=-1, tags=[], content="m3")))
+    out.append(("created-at-2^63", None, make_event(key=2, kind=1, created_at=2 ** 63, tags=[], content="m4")))
+    out.append(("kind-2^32", None, make_event(key=2, kind=2 ** 32, created_at=1000, tags=[], content="m5")))
+    out.append(("kind-minus-1", None, make_event(key=2, kind=-1, created_at=1000, tags=[], content="m6")))
+    out.append(("kind-70000", None, make_event(key=2, kind=70000, created_at=1000, tags=[], content="m7")))
     out.append(("kind-0", None, make_event(key=2, kind=0, created_at=1000, tags=[], content="{}")))
     out.append(("kind-65535", None, make_event(key=2, kind=65535, created_at=1000, tags=[], content="n")))
     out.append(("replaceable", None, make_event(key=3, kind=10002, created_at=1000, tags=[["t", "x"]], content="o")))
